@@ -193,4 +193,96 @@ def maxStepPair (ε T : Rat) (jt : List Rat) (jf jc : List Rat) : PairOut :=
   let c := r.2.map (fun p => p.2)
   ⟨0 :: (r.1 ++ [T]), 0 :: (f ++ [lastD 0 f]), 0 :: (c ++ [lastD 0 c])⟩
 
+/-! ### the coupled Lévy-copula simulator: d coordinates, fine and coarse (couplinglevycopula.py:238-412)
+
+The returned arrays have shape `(2, d, n)`: leading axis fine / coarse (`PT.FP`, `PT.CP`), then the coordinate, then the
+time index.  A column (all d coordinates at one time) is a vector `V = Nat → Rat` used on `0..d-1`; the model works on
+lists of columns exactly as the code works on the last axis (`np.cumsum(…, axis=0)` of the `(n_k, d)` slice values,
+`np.concatenate(…).T`, `np.insert(…, axis=-1)`), and is generic in the value type where the code is. -/
+
+abbrev V := Nat → Rat
+def vzero : V := fun _ => 0
+def vadd (a b : V) : V := fun c => a c + b c
+
+/-- `np.cumsum(values, axis=0)` of a list of d-vectors continued from `acc` (`current_value += …` for the coarse
+    values, couplinglevycopula.py:226-230) -/
+def vcumsumFrom (acc : V) : List V → List V
+  | [] => []
+  | x :: r => vadd acc x :: vcumsumFrom (vadd acc x) r
+
+def vcumsum (l : List V) : List V := vcumsumFrom vzero l
+
+/-- `StochasticJumpPath(times, diff, jumps)` with `diff`, `jumps` of shape `(2, d, n)`, as lists of columns -/
+structure PairOutV where
+  times : List Rat
+  diffF : List V
+  diffC : List V
+  fine : List V
+  coarse : List V
+
+/-- `CouplingLevyCopulaSimulationFixedTimes` (couplinglevycopula.py:238-283): column `k+1` is the *last* cumulative
+    value of slice `k` (0 for an empty slice) — per-interval sums, for the fine and for the coarse values; the diffusion
+    parts are cumulative (`np.cumsum(sqrt_dts * (D @ Z), axis=1)`, `wF`, `wC` = the scaled columns) -/
+def fixedDatesCopulaPair (dates : List Rat) (incsF incsC : List (List V)) (wF wC : List V) : PairOutV :=
+  ⟨dates, vzero :: vcumsum wF, vzero :: vcumsum wC,
+   vzero :: incsF.map (fun s => lastD vzero (vcumsum s)), vzero :: incsC.map (fun s => lastD vzero (vcumsum s))⟩
+
+/-- `np.concatenate(per-interval cumulative values).T` (couplinglevycopula.py:312-328): restarts at 0 at every
+    product date, like `jumpValsCtmc` -/
+def jumpValsCopula (ss : List (List V)) : List V := ss.flatMap vcumsum
+
+/-- `[0] ++ jump_times ++ [maturity]`, zero column ++ values ++ final column, for both components
+    (couplinglevycopula.py:335-383) -/
+def assembleV (T : Rat) (jt : List Rat) (jf jc wF wC : List V) : PairOutV :=
+  ⟨0 :: (jt ++ [T]), vzero :: vcumsum wF, vzero :: vcumsum wC,
+   vzero :: (jf ++ [lastD vzero jf]), vzero :: (jc ++ [lastD vzero jc])⟩
+
+/-- `CouplingLevyCopulaSimulationWithJumpTimes`: the intervals `Is` give the jump times (their own sizes are not
+    used), `sF`, `sC` the fine / coarse state increments of each interval as d-vectors -/
+def jumpTimesCopulaPair (T : Rat) (Is : List Interval) (sF sC : List (List V)) (wF wC : List V) : PairOutV :=
+  assembleV T (jumpTimes Is) (jumpValsCopula sF) (jumpValsCopula sC) wF wC
+
+/-- the (times, fine, coarse) triple of a coupled maximum-step simulation, generic in the value type -/
+structure PairOutG (β : Type) where
+  times : List Rat
+  fine : List β
+  coarse : List β
+
+/-- `maxStepPair` for any value type (`z` = the zero column): one loop on the gaps with both value arrays (helper.py),
+    then 0 / maturity and the zero / final columns added -/
+def maxStepPairG {β : Type} (z : β) (ε T : Rat) (jt : List Rat) (jf jc : List β) : PairOutG β :=
+  let r := if jt.isEmpty then (jt, List.zip jf jc) else buildFiner ε T (z, z) jt (List.zip jf jc)
+  let f := r.2.map (fun p => p.1)
+  let c := r.2.map (fun p => p.2)
+  ⟨0 :: (r.1 ++ [T]), z :: (f ++ [lastD z f]), z :: (c ++ [lastD z c])⟩
+
+/-- `CouplingLevyCopulaSimulationMaximumStep` (couplinglevycopula.py:386-412) -/
+def maxStepCopulaPair (ε T : Rat) (jt : List Rat) (jf jc wF wC : List V) : PairOutV :=
+  let p := maxStepPairG vzero ε T jt jf jc
+  ⟨p.times, vzero :: vcumsum wF, vzero :: vcumsum wC, p.fine, p.coarse⟩
+
+/-- coordinate `c` of a list of columns: row `c` of the `(d, n)` array -/
+def coord (c : Nat) (l : List V) : List Rat := l.map (fun v => v c)
+
+/-- coordinate `c` of the per-interval state increments -/
+def coordSlices (c : Nat) (ss : List (List V)) : List (List Rat) := ss.map (coord c)
+
+/-! ### deciders of the exact domains on which the code satisfies the full statements (theorems
+`fixedDates_code_eq_spec_iff`, `jumpValsCtmc_eq_direct_iff` of Proofs/C15.lean) -/
+
+/-- every entry except possibly the last is 0 -/
+def zeroButLast : List Rat → Bool
+  | [] => true
+  | [_] => true
+  | x :: y :: r => decide (x = 0) && zeroButLast (y :: r)
+
+/-- fixed dates: every product interval except possibly the last has zero jump sum -/
+def allZeroButLast (incs : List (List Rat)) : Bool := zeroButLast (incs.map sumL)
+
+/-- jump-time mode, CTMC: every interval that has a jump starts with a zero carried total (`acc` = the sum of all
+    earlier jump sizes) -/
+def restartFreeB : Rat → List (List Rat) → Bool
+  | _, [] => true
+  | acc, s :: r => (s.isEmpty || decide (acc = 0)) && restartFreeB (acc + sumL s) r
+
 end Rpylib.Path
